@@ -120,7 +120,7 @@ def check_case(ctx, pm, H, tmpdir):
     exp_comp = FI.expected_compose(H["compose"])
     try:
         t1 = real.dumps()
-    except (TypeError, ValueError) as e:
+    except Exception as e:   # refused to write (any exception): outside this property, judged by C06
         ctx.note_add("write_refused")
         ctx.note("write_refused_example", {"error": "%s: %s" % (type(e).__name__, e)})
         return None
